@@ -1,4 +1,5 @@
-/-! C20 (UTF part): function-level model of `_dispatch_transform_to_utf16` (src/transform.c:294)
+/-! C20 (UTF part): function-level model of `_dispatch_transform_to_utf16` (src/transform.c) as repaired by the
+    `fix:` commits for F7, F11 and F12,
     over a *fragmented* input: the per-region block, the `skip` carried between regions, the
     look-ahead through a mapped subrange of the whole object, and the BOM / surrogate tests.
 
@@ -41,7 +42,7 @@ inductive Res where
 /-- what the loop body appends for one decoded value; `none` = return false -/
 def emit (wch : Nat) (atBom : Bool) : Option (List Nat) :=
   if wch = 0xfeff ∧ atBom then some []
-  else if 0xd800 ≤ wch ∧ wch < 0xdfff then none
+  else if 0xd800 ≤ wch ∧ wch ≤ 0xdfff then none
   else if 0x10000 ≤ wch then
     some [(wch - 0x10000) / 1024 % 1024 + 0xd800, (wch - 0x10000) % 1024 + 0xdc00]
   else some [wch % 65536]
@@ -64,14 +65,14 @@ def inner (flat : List Nat) (off size : Nat) : Nat → List Nat → Nat → List
         else match readSeq sub with
           | none => .oob
           | some wch =>
-            match emit wch (off + size == 3) with
+            match emit wch (off + i == 0) with
             | none => .fail
             | some us => .ok (out ++ us) (bs - (size - i))
       else
         match readSeq src with
         | none => .oob
         | some wch =>
-          match emit wch (off + (i + bs) == 3) with
+          match emit wch (off + i == 0) with
           | none => .fail
           | some us => inner flat off size fuel (src.drop bs) (i + bs) (out ++ us)
 
@@ -79,7 +80,7 @@ def inner (flat : List Nat) (off size : Nat) : Nat → List Nat → Nat → List
 def region (flat : List Nat) (off : Nat) (r : List Nat) (out : List Nat) (skip : Nat) : Res :=
   let out := if off = 0 then [0xfeff] else out
   if r.length ≤ skip then .ok out (skip - r.length)
-  else inner flat off (r.length - skip) (r.length - skip) (r.drop skip) 0 out
+  else inner flat (off + skip) (r.length - skip) (r.length - skip) (r.drop skip) 0 out
 
 def regions (flat : List Nat) : Nat → List (List Nat) → List Nat → Nat → Res
   | _, [], out, skip => .ok out skip
@@ -172,7 +173,7 @@ def enc16 (c : Nat) : List Nat :=
 theorem emit_scalar (c : Nat) (h : scalar c) : emit c false = some (enc16 c) := by
   obtain ⟨h1, h2⟩ := h
   unfold emit enc16
-  have a : ¬ (0xd800 ≤ c ∧ c < 0xdfff) := by omega
+  have a : ¬ (0xd800 ≤ c ∧ c ≤ 0xdfff) := by omega
   by_cases hb : c < 0x10000
   · have b : ¬ (0x10000 ≤ c) := by omega
     have e : c % 65536 = c := by omega
@@ -209,10 +210,9 @@ theorem inner_wf (cs : List Nat) : ∀ (fuel i : Nat) (out : List Nat) (size : N
     cases fuel with
     | zero => omega
     | succ fuel =>
-      have hem : emit c (0 + (i + (r.length + 1)) == 3) = some (enc16 c) := by
+      have hem : emit c (0 + i == 0) = some (enc16 c) := by
         rw [emit_eq, emit_scalar c hc]
         rintro ⟨h1, h2⟩
-        have := enc_bom_length c h1
         have hi : i = 0 := by simp at h2; omega
         exact hb hi (by simp [h1])
       have hdrop : (enc c ++ cs.flatMap enc).drop (r.length + 1) = cs.flatMap enc := by
@@ -245,37 +245,27 @@ theorem single_region_wf (cs : List Nat) (hs : ∀ c ∈ cs, scalar c) (hne : cs
   simp only [h0, if_false, if_true, Nat.sub_zero, List.drop_zero, this, Nat.zero_add]
   simp
 
-/-! ### findings, as theorems about the model -/
+/-! ### the defects F7, F11, F12 of the earlier loop, on the repaired one -/
 
-/-- F7: `ED BF BF` is accepted and a lone low surrogate DFFF is emitted (`< 0xdfff`) -/
-theorem F7_lone_surrogate : toUtf16 [[0xed, 0xbf, 0xbf]] = .ok [0xfeff, 0xdfff] 0 := by decide
+/-- F7 (fixed): `ED BF BF` (U+DFFF) is rejected like every other encoded surrogate -/
+theorem F7_fixed : toUtf16 [[0xed, 0xbf, 0xbf]] = .fail := by decide
 
-/-- every other encoded surrogate is rejected -/
-theorem surrogate_rejected (c : Nat) (h : 0xd800 ≤ c ∧ c < 0xdfff) (b : Bool) : emit c b = none := by
+/-- every encoded surrogate is rejected -/
+theorem surrogate_rejected (c : Nat) (h : 0xd800 ≤ c ∧ c ≤ 0xdfff) (b : Bool) : emit c b = none := by
   unfold emit
   have : ¬ (c = 0xfeff) := by omega
   simp [this, h]
 
-/-- F11: the same text, split so that a region is entered with `skip > 0` and then ends inside a
-    sequence, decodes the wrong bytes ... -/
-theorem F11_wrong_text :
-    toUtf16 [[0x61, 0xc3], [0xa9, 0x62, 0xc3], [0xa9]] ≠ toUtf16 [[0x61, 0xc3, 0xa9, 0x62, 0xc3, 0xa9]] := by decide
+/-- F11 (fixed): the witnesses of the wrong-text and over-read defects now give the single-region result -/
+theorem F11_fixed :
+    toUtf16 [[0x61, 0xc3], [0xa9, 0x62, 0xc3], [0xa9]] = toUtf16 [[0x61, 0xc3, 0xa9, 0x62, 0xc3, 0xa9]] ∧
+    toUtf16 [[0x61, 0xe2], [0x82, 0xac, 0xc3], [0xa9]] = toUtf16 [[0x61, 0xe2, 0x82, 0xac, 0xc3, 0xa9]] := by decide
 
-/-- ... and can run the sequence reader past the bytes it mapped -/
-theorem F11_over_read : toUtf16 [[0x61, 0xe2], [0x82, 0xac, 0xc3], [0xa9]] = .oob := by decide
-
-/-- F12: the "is this the leading BOM" test looks at where the *region* ends after a look-ahead
-    (`i = size`), not at where the sequence starts: a U+FEFF that is not leading is dropped when
-    the fragmentation makes a region end at byte 3, and a leading BOM split over regions is kept -/
-theorem F12_fragmentation_dependent :
+/-- F12 (fixed): the leading-BOM rule no longer depends on the fragmentation -/
+theorem F12_fixed :
     toUtf16 [[0x7e, 0xef, 0xbb, 0xbf]] = .ok [0xfeff, 0x7e, 0xfeff] 0 ∧
-    toUtf16 [[0x7e], [0xef, 0xbb], [0xbf]] = .ok [0xfeff, 0x7e] 0 ∧
+    toUtf16 [[0x7e], [0xef, 0xbb], [0xbf]] = .ok [0xfeff, 0x7e, 0xfeff] 0 ∧
     toUtf16 [[0xef, 0xbb, 0xbf]] = .ok [0xfeff] 0 ∧
-    toUtf16 [[0xef, 0xbb], [0xbf]] = .ok [0xfeff, 0xfeff] 0 := by decide
-
-#print axioms single_region_wf
-#print axioms readSeq_enc
-#print axioms F11_over_read
-#print axioms F12_fragmentation_dependent
+    toUtf16 [[0xef, 0xbb], [0xbf]] = .ok [0xfeff] 0 := by decide
 
 end Utf8P
